@@ -72,7 +72,7 @@ theorem as_orbit_cov_separate :
   decide +kernel
 
 /-- what the operations of an unpickled object return, and the covariance it carries -/
-def afterPickle : Option (Bool × Bool × Bool × Bool × Option Cell) :=
+def afterPickle : Option ((Bool × Bool × Bool × Bool) × Option Cell × Option Cell) :=
   match setCov h1 2 1000 with
   | (h, .ok ()) =>
     match pickle h 2 with
@@ -80,18 +80,126 @@ def afterPickle : Option (Bool × Bool × Bool × Bool × Option Cell) :=
       match getSV h n with
       | some s =>
         let isOk {α : Type} (r : Except Err α) : Bool := match r with | .ok _ => true | .error _ => false
-        some (isOk (copySV h n).2, isOk (setForm h n "keplerian").2, isOk (setFrame h n "ITRF").2,
-              (let (h, p) := alloc h (.prop 0); isOk (asOrbit h n p).2),
-              (match lookup "cov" s.items with | some (.addr c) => h[c]? | _ => none))
+        some ((isOk (copySV h n).2, isOk (setForm h n "keplerian").2, isOk (setFrame h n "ITRF").2,
+              (let (h, p) := alloc h (.prop 0); isOk (asOrbit h n p).2)),
+              (match lookup "cov" s.items with | some (.addr c) => h[c]? | _ => none),
+              (match lookup "cov" s.items with
+               | some (.addr c) => (match h[c]? with | some (.cov b _ _ _) => h[b]? | _ => none)
+               | _ => none))
       | none => none
     | _ => none
   | _ => none
 
 /-- fixed (27f7ad7, 2927581): the unpickled object can be copied, converted and turned into an Orbit, and its
 covariance keeps frame and parent state (the Frame objects are clones — pickle copies them by value — here
-with identity 10; the private state is cell 12) -/
+with identity 11; the private state is cell 14, the covariance's own 6x6 buffer the new cell 13) -/
 theorem pickle_gives_working_object :
-    afterPickle = some (true, true, true, true, some (.cov (.init 1000) (.reg "EME2000" 10) 12 (.reg "EME2000" 10))) := by
+    afterPickle = some ((true, true, true, true), some (.cov 13 (.reg "EME2000" 11) 14 (.reg "EME2000" 11)), some (.buf (.init 1000))) := by
+  decide +kernel
+
+/-- OPEN finding C15-deepcopy-shares-data: `copy.deepcopy(sv)` falls through to `ndarray.__deepcopy__`; the new object
+(cell 9) has its own buffer (7) and dict (8), but the dict is a shallow copy — the maneuver list 2 and the `nested`
+container 4 stored in it are the receiver's own cells -/
+theorem deepcopy_shares_data :
+    stdDeepcopy h0 6 = (h0 ++ [ .buf (.init 0),
+                                .dict [("maneuvers", .addr 2), ("nested", .addr 4), ("date", .tok 100), ("form", .form "cartesian"),
+                                       ("frame", .frame (.reg "EME2000" 0))],
+                                .sv false 7 8 ], .ok 9) := by
+  decide +kernel
+
+/-- a state vector (cell 2) in TOD whose covariance (cell 6, buffer 7) follows it (also labelled TOD) but was attached while
+the state was in EME2000: its private state (cell 5) and `_orb_frame` are still EME2000 — what `sv.frame = "TOD"` leaves
+behind on a state built in EME2000 -/
+def h3 : Heap :=
+  [ .buf (.init 0), .dict [("date", .tok 100), ("form", .form "cartesian"), ("frame", .frame (.reg "TOD" 0)), ("cov", .addr 6)], .sv false 0 1,
+    .buf (.init 0), .dict [("date", .tok 100), ("form", .form "cartesian"), ("frame", .frame (.reg "EME2000" 0)), ("cov", .none)], .sv false 3 4,
+    .cov 7 (.reg "TOD" 0) 5 (.reg "EME2000" 0), .buf (.init 1000) ]
+
+/-- an environment in which the rotation TOD → MOD works and TOD → EME2000 raises (observed under `eop.missing_policy =
+error`: the first reads the nutation values cached on the Date, the second needs the time-scale offsets) -/
+def envTodEme : Env := fun x y => if x = "TOD" ∧ y = "EME2000" then some .eop else none
+
+/-- OPEN finding C15-frame-change-not-atomic-with-cov: `sv.frame = "MOD"` RAISES (the covariance that has to follow cannot be
+rotated) after the state vector itself has been moved: frame label MOD over transformed values, covariance still TOD —
+the failing assignment did not leave the object in its previous frame/values, and the covariance no longer follows -/
+theorem frame_change_fails_after_state_moved :
+    setFrame h3 2 "MOD" envTodEme =
+      ([ .buf (.xform "TOD" "MOD" (.init 0)),
+         .dict [("date", .tok 100), ("form", .form "cartesian"), ("frame", .frame (.reg "MOD" 0)), ("cov", .addr 6)], .sv false 0 1,
+         .buf (.init 0), .dict [("date", .tok 100), ("form", .form "cartesian"), ("frame", .frame (.reg "EME2000" 0)), ("cov", .none)], .sv false 3 4,
+         .cov 7 (.reg "TOD" 0) 5 (.reg "EME2000" 0), .buf (.init 1000) ], .error .eop) := by
+  decide +kernel
+
+/-! ### positive witnesses for the constructor / getter / failing-setter sites (each is a defect a maintainer could
+introduce there; the correspondence run compares exactly these situations with /repo) -/
+
+/-- value of the covariance buffer of the state vector at `a` -/
+def covOf (h : Heap) (a : Nat) : Option (Val × Fr) :=
+  match getSV h a with
+  | some s =>
+    match lookup "cov" s.items with
+    | some (.addr c) =>
+      match h[c]? with
+      | some (.cov b fr _ _) => (match h[b]? with | some (.buf v) => some (v, fr) | _ => none)
+      | _ => none
+    | _ => none
+  | none => none
+
+/-- `a.cov = Cov(a, …)`, `b = a.copy()`, `b.cov = Cov(b, a.cov, None)`, `b.cov.frame = "TNW"`: the covariance built from the
+one of `a` has its own buffer — converting it leaves `a.cov` (values and frame label) as it was -/
+def covFromThenConvert : Option ((Option (Val × Fr)) × (Option (Val × Fr))) :=
+  match setCov h1 2 1000 with
+  | (h, .ok ()) =>
+    match copySV h 2 with
+    | (h, .ok n) =>
+      match covFrom h n 2 with
+      | (h, .ok ()) =>
+        match covFrame h n "TNW" with
+        | (h, .ok ()) => some (covOf h 2, covOf h n)
+        | _ => none
+      | _ => none
+    | _ => none
+  | _ => none
+
+theorem cov_from_cov_has_own_buffer :
+    covFromThenConvert = some (some (.init 1000, .reg "EME2000" 0),
+      some (.covx (.reg "EME2000" 0) .tnw (.reg "EME2000" 0) (.reg "EME2000" 0) (.init 0) (.init 1000), .tnw)) := by
+  decide +kernel
+
+/-- the maneuver lists of the state vector at `a` -/
+def mansOf (h : Heap) (a : Nat) : Option (List Ref) :=
+  match getSV h a with
+  | some s =>
+    match lookup "maneuvers" s.items with
+    | some (.addr l) => (match h[l]? with | some (.list ms) => some ms | _ => none)
+    | _ => none
+  | none => none
+
+/-- `bool(sv.maneuvers)` (the getter creates the empty list), `c = sv.copy()`, `c.maneuvers.append(m)`: the empty list is
+copied like any other — the maneuver appended to the copy does not appear in the original -/
+def lazyManeuversThenCopy : Option (Option (List Ref) × Option (List Ref)) :=
+  match readMan h1 2 with
+  | (h, .ok ()) =>
+    match copySV h 2 with
+    | (h, .ok n) =>
+      match addMan h n 7 with
+      | (h, .ok ()) => some (mansOf h 2, mansOf h n)
+      | _ => none
+    | _ => none
+  | _ => none
+
+theorem lazily_created_maneuver_list_not_shared : lazyManeuversThenCopy = some (some [], some [.addr 8]) := by
+  decide +kernel
+
+/-- a keplerian state whose frame assignment fails inside the transformation (here: the environment raises, e.g. no
+Earth-orientation data under the 'error' policy): label `keplerian` kept, values converted back from cartesian -/
+def h2 : Heap :=
+  [ .buf (.init 0), .dict [("date", .tok 100), ("form", .form "keplerian"), ("frame", .frame (.reg "EME2000" 0))], .sv false 0 1 ]
+
+theorem failed_frame_change_from_keplerian :
+    setFrame h2 2 "ITRF" (fun _ _ => some .eop) =
+      ([ .buf (.conv "cartesian" "keplerian" (.conv "keplerian" "cartesian" (.init 0))),
+         .dict [("date", .tok 100), ("form", .form "keplerian"), ("frame", .frame (.reg "EME2000" 0))], .sv false 0 1 ], .error .eop) := by
   decide +kernel
 
 end BeyondVerif.C15W
